@@ -13,7 +13,15 @@ inductive Root
   | localRef | localMut
   deriving DecidableEq, Repr, Inhabited
 
-inductive Seg | fld | idx | paren
+/-- what a selection step yields: a value, an immutable reference `&T`, or a mutable reference `&'T`
+    (a struct field or an array element may itself hold a reference) -/
+inductive Ty3 | val | imm | mut
+  deriving DecidableEq, Repr, Inhabited
+
+inductive Seg
+  | fld (t : Ty3 := .val)
+  | idx (t : Ty3 := .val)
+  | paren
   deriving DecidableEq, Repr, Inhabited
 
 inductive Form | assign | compound | incDec | mutBorrow | passMut | callMutMethod
@@ -34,32 +42,42 @@ def Root.isRef : Root → Bool
   | .paramRef | .paramMut | .recvRef | .recvMut | .localRef | .localMut => true
   | _ => false
 
+def Root.ty (r : Root) : Ty3 := if r.immRef then .imm else if r.isRef then .mut else .val
+
 /-- the property's notion: the value seen through this binding must not change -/
 def Root.immutable (r : Root) : Bool := r.constOrReadonly || r.immRef
 
 /-- an access chain: the root identifier wrapped in selectors / index / parentheses (outermost last) -/
 inductive Chain
   | ident (r : Root)
-  | sel (x : Chain)
-  | index (x : Chain)
+  | sel (t : Ty3) (x : Chain)
+  | index (t : Ty3) (x : Chain)
   | paren (x : Chain)
   deriving Repr
 
 def Chain.ofPath (r : Root) : List Seg → Chain
   | [] => .ident r
-  | .fld :: p => .sel (Chain.ofPath r p)
-  | .idx :: p => .index (Chain.ofPath r p)
+  | .fld t :: p => .sel t (Chain.ofPath r p)
+  | .idx t :: p => .index t (Chain.ofPath r p)
   | .paren :: p => .paren (Chain.ofPath r p)
 
 /-- rootIdentifier -/
 def Chain.root : Chain → Root
   | .ident r => r
-  | .sel x | .index x | .paren x => x.root
+  | .sel _ x | .index _ x | .paren x => x.root
 
-/-- findImmutableRefInChain: first immutable-reference identifier met walking down the chain -/
+/-- inferExprType of the chain, as far as references are concerned -/
+def Chain.ty : Chain → Ty3
+  | .ident r => r.ty
+  | .sel t _ | .index t _ => t
+  | .paren x => x.ty
+
+/-- findImmutableRefInChain: an immutable-reference identifier at the root, or a selection step whose BASE is an
+    immutable reference held in a field or an element (`throughBase`) -/
 def Chain.immRefInChain : Chain → Bool
   | .ident r => r.immRef
-  | .sel x | .index x | .paren x => x.immRefInChain
+  | .sel _ x | .index _ x => x.immRefInChain || x.ty == .imm
+  | .paren x => x.immRefInChain
 
 /-- checkMutability … reportMutabilityError returns true (an error, not the value-receiver warning) -/
 def checkMutabilityBlocks (c : Chain) : Bool := c.root.constOrReadonly || c.immRefInChain
@@ -67,15 +85,31 @@ def checkMutabilityBlocks (c : Chain) : Bool := c.root.constOrReadonly || c.immR
 /-- isBorrowableTarget (for the fixed-array / field / identifier places generated here) -/
 def Chain.borrowable : Chain → Bool
   | .ident r => !r.constOrReadonly
-  | .sel x | .index x | .paren x => x.borrowable
+  | .sel _ x | .index _ x | .paren x => x.borrowable
 
 /-- does the type checker reject this mutation? -/
 def implRejects (r : Root) (path : List Seg) (f : Form) : Bool :=
   let c := Chain.ofPath r path
   match f with
-  | .assign | .compound | .incDec | .callMutMethod => checkMutabilityBlocks c
+  | .assign | .compound | .incDec =>
+    -- checkAssignStmt / checkIncDecTarget: the mutability of the place, then their own check that the target is not itself an
+    -- immutable reference ("cannot assign / modify through immutable reference": assignment to a reference writes through it)
+    checkMutabilityBlocks c || c.ty == .imm
+  | .callMutMethod =>
+    -- checkCallExpr 3b: the mutability of the receiver expression, then whether it is itself an immutable reference
+    checkMutabilityBlocks c || c.ty == .imm
   | .mutBorrow | .passMut =>
     -- checkBorrowExpr: reference of a reference; then the mutability of the place; then addressability
-    (path.isEmpty && r.isRef) || checkMutabilityBlocks c || !c.borrowable
+    (c.ty != .val) || checkMutabilityBlocks c || !c.borrowable
+
+/-- SPECIFICATION: the place (or, for a method call, the receiver) is reached through an immutable binding — the root is a
+    const / read-only variable, or the root, the place itself or any prefix of the chain is an immutable reference -/
+def Chain.throughImm : Chain → Bool
+  | .ident r => r.immRef
+  | .sel t x | .index t x => t == .imm || x.throughImm
+  | .paren x => x.throughImm
+
+def mustReject (r : Root) (path : List Seg) : Bool :=
+  r.constOrReadonly || (Chain.ofPath r path).throughImm
 
 end FerretVerif.Mut
